@@ -5,8 +5,8 @@ Proof part: coq/theories/Props/C12.v (site_monotone, run_monotone on the referen
 Lang/Interp.v, matrix).  Correspondence / oracle part (this file):
   (i)   engine (debug + release) vs extracted interpreter under each of the four modes, on typed random
         programs whose variable references are partly undefined (proggen feature "undefined" plus an
-        injector that puts undefined forms - u, u.a, u[0], u.a.b, n.foo, l[7], `(e if false)`,
-        u|default(e) - at arbitrary expression positions);
+        injector that puts undefined forms - u, u.a, u[0], u.a.b, n.foo, l[7], d.zz / {..}['zz'] (a key the
+        map does not have), d.zz.y, `(e if false)`, u|default(e) - at arbitrary expression positions);
   (ii)  the relation on the IMPLEMENTATION: success under a stricter mode implies the identical output
         under every weaker mode - for the generated programs, for the matrix probes and for a sweep of
         every filter / test / global function registered in Environment::new() with a possibly-undefined
@@ -14,8 +14,9 @@ Lang/Interp.v, matrix).  Correspondence / oracle part (this file):
   (iii) the matrix probes: printing and iterating an undefined fail under Strict and SemiStrict and yield
         nothing otherwise, truth-testing fails only under Strict, attribute / item access fails
         everywhere except Chainable, `is defined` / `is undefined` / `default` never fail - in many
-        syntactic positions; the 8 core probes are also compared with the interpreter (c12-matrix) and
-        with the documented table (c12-doc, Spec.v).
+        syntactic positions; the core probes (8 sites + 7 about maps: a missing key is an undefined, the
+        map / its keys / iterating it / `in` never fail) are also compared with the interpreter
+        (c12-matrix) and with the documented table (c12-doc, Spec.v).
 """
 import os, sys, collections, time
 sys.path.insert(0, os.path.dirname(os.path.dirname(os.path.abspath(__file__))))
@@ -90,9 +91,15 @@ def row_show(row):
 # ----------------------------------------------------------------------------------------------
 def undef_form(rng, e):
     u = ("var", "undef%d" % rng.below(3))
-    c = rng.below(11)
+    c = rng.below(13)
     if c <= 2:
         return u
+    if c == 11:
+        # a key a map does not have (context maps d / e, a literal): attribute and subscript form
+        m = rng.choice([("var", "d"), ("var", "e"), ("map", [(("str", "k"), ("int", 1))]), ("map", [])])
+        return ("attr", m, "zz") if rng.chance(1, 2) else ("item", m, rng.choice([("str", "zz"), ("int", 5), ("none",)]))
+    if c == 12:
+        return ("attr", ("attr", ("var", rng.choice(["d", "e"])), "zz"), "y")      # .. and an attribute of that undefined
     if c == 3:
         return ("attr", u, "foo")
     if c == 4:
@@ -116,6 +123,9 @@ def inject_expr(e, rng, p):
         new = e
     elif t == "list":
         new = ("list", [inject_expr(x, rng, p) for x in e[1]])
+    elif t == "map":
+        # undefined forms go to the values; the keys of the fragment stay scalars
+        new = ("map", [(k, inject_expr(v, rng, p)) for k, v in e[1]])
     elif t in ("neg", "not"):
         new = (t, inject_expr(e[1], rng, p))
     elif t == "bin":
@@ -227,7 +237,7 @@ def expect_model(o):
 #                           renders (under chainable) with the plain undefined `u` in place of the access
 #   class never           : all four succeed with the same output (= `expect` if given)
 # ----------------------------------------------------------------------------------------------
-CORE = [  # the 8 probes of C12/Model.v::probe, in the order of Runner.site_of
+CORE = [  # the probes of C12/Model.v::probe, in the order of Runner.site_of
     ("core:print", "print", "{{ @ }}", "u"),
     ("core:iterate", "iterate", "{% for x in @ %}x{% endfor %}", "u"),
     ("core:truth", "truth", "{% if @ %}a{% else %}b{% endif %}", "u"),
@@ -236,6 +246,14 @@ CORE = [  # the 8 probes of C12/Model.v::probe, in the order of Runner.site_of
     ("core:is-defined", "never", "{{ @ is defined }}", "u"),
     ("core:is-undefined", "never", "{{ @ is undefined }}", "u"),
     ("core:default", "never", "{{ @|default(1) }}", "u"),
+    # maps: a key the map does not have is an undefined like any other; the map and what it has are defined
+    ("core:map-missing-attr", "print", "{{ @ }}", "{'k': 1}.a"),
+    ("core:map-missing-item", "print", "{{ @ }}", "{'k': 1}['a']"),
+    ("core:map-missing-iterate", "iterate", "{% for x in @ %}x{% endfor %}", "{'k': 1}.a"),
+    ("core:map-missing-chain", "access", "{{ @ }}", "{'k': 1}.a.b"),
+    ("core:map-key", "never", "{{ @ }}", "{'k': 1}.k"),
+    ("core:map-iterate", "never", "{% for x in @ %}{{ x }}{% endfor %}", "{'k': 1}"),
+    ("core:map-in", "never", "{{ 'a' in @ }}", "{'k': 1}"),
 ]
 
 UNDEFS = [("u", "u"), ("missing-attr", "d.zz"), ("missing-index", "x[10]"), ("none-attr", "n.foo")]
@@ -492,9 +510,10 @@ def matrix_probes():
 
 
 NEVER_EXPECT = {"never:%s:%s" % (pn, un): ex for un, _ in UNDEFS for pn, _, ex in NEVER}
-NEVER_EXPECT.update({"core:is-defined": "False", "core:is-undefined": "True", "core:default": "1"})
+NEVER_EXPECT.update({"core:is-defined": "False", "core:is-undefined": "True", "core:default": "1",
+                     "core:map-key": "1", "core:map-iterate": "k", "core:map-in": "False"})
 ACCESS_BASE = {"access:%s" % an: base for an, _, _, base in ACCESS}
-ACCESS_BASE.update({"core:attr": "u", "core:item": "u"})
+ACCESS_BASE.update({"core:attr": "u", "core:item": "u", "core:map-missing-chain": "{'k': 1}.a"})
 
 
 def reference_template(site, cls, tmpl, operand):
@@ -839,15 +858,15 @@ def main():
                       {"template": src, "context": CTX, "probe": [site, cls, tmpl, op], "profile": "release" if rel else "debug",
                        "formatter": "custom" if fmt else "default", "outcomes": row_show(row)})
     tick("matrix probes")
-    # the 8 core probes against the interpreter and the documented table
-    core_cases = [[s, MODE_CODE[m]] for s in range(8) for m in MODES]
+    # the core probes against the interpreter and the documented table
+    core_cases = [[s, MODE_CODE[m]] for s in range(len(CORE)) for m in MODES]
     model_m = run_model("C12", "c12-matrix", core_cases)
     doc_m = run_model("C12", "c12-doc", core_cases)
     kern_m = kernel_eval("C12.Runner.matrix", core_cases, "k_C12_matrix", imports="Common.Base C12.Runner")
     core_rows = render4([(t.replace("@", op), {}) for _, _, t, op in CORE])
-    evaluations += 32
+    evaluations += 4 * len(CORE)
     core_bad = []
-    for s in range(8):
+    for s in range(len(CORE)):
         for j, m in enumerate(MODES):
             e = expect_model(core_rows[s][j])
             mm, dd = model_m[4 * s + j], doc_m[4 * s + j]
@@ -861,7 +880,7 @@ def main():
             chk.violation("matrix: the interpreter departs from engine and documentation at %s under %s" % (b["site"], b["mode"]),
                           {"theorem_or_correspondence": "C12.Runner.matrix vs engine", "cell": b}, True)
     kern_matrix_ok = kern_m is not None and kern_m == model_m
-    chk.cov["matrix_core"] = {"cells": 32, "engine_interpreter_documentation_agree": 32 - len(core_bad), "kernel_agrees_with_extraction": kern_matrix_ok}
+    chk.cov["matrix_core"] = {"cells": 4 * len(CORE), "engine_interpreter_documentation_agree": 4 * len(CORE) - len(core_bad), "kernel_agrees_with_extraction": kern_matrix_ok}
 
     tick("matrix core + kernel")
     # ------------------------------------------------------------------------------------------
@@ -1081,7 +1100,7 @@ def main():
     chk.cov["monotonicity_violations_generated"] = len(mono_bad)
     chk.cov["matrix_probe_table"] = {k: matrix_table[k] for k in sorted(matrix_table) if k.startswith("core:") or k.startswith("access:") or k.startswith("print:top") or k.startswith("print:list") or k.startswith("print:map") or k.startswith("print:join") or k.startswith("iterate:for:") or k.startswith("truth:if:") or (k.startswith("mt:") and k.endswith(":print"))}
     chk.cov["matrix_probes"] = len(probes)
-    chk.cov["kernel_crosscheck"] = {"cases": len(small_cases) + 32, "agree": bool(kern_ok and kern_matrix_ok)}
+    chk.cov["kernel_crosscheck"] = {"cases": len(small_cases) + 4 * len(CORE), "agree": bool(kern_ok and kern_matrix_ok)}
     if not chk.violations:
         if ok_frac["lenient"] < 0.35 or ok_frac["strict"] < 0.1:
             chk.violation("generator degenerated: too few programs render", {"theorem_or_correspondence": "tools/proggen.py + injector distribution", "ok_fraction": ok_frac}, True)
